@@ -15,7 +15,8 @@ def run(ctx):
     total = searches = nt = 0
     per = {}
     for th in SETTINGS:
-        runs = [("TestVerif_C02_Dense", {"VERIF_CORPORA": ctx.pick(4, 80), "VERIF_DETAIL": 1, "ZOEKT_RE2_THRESHOLD_BYTES": th})]
+        runs = [("TestVerif_C02_Dense", {"VERIF_CORPORA": ctx.pick(4, 80), "VERIF_DETAIL": 1, "ZOEKT_RE2_THRESHOLD_BYTES": th,
+                                         "VERIF_DENSE_RUNES": 1})]
         if ctx.thorough or th == "0":
             runs.append(("TestVerif_C01_Exhaustive", {"VERIF_DOCLEN": ctx.pick(3, 4), "VERIF_DETAIL": 1, "ZOEKT_RE2_THRESHOLD_BYTES": th}))
 
